@@ -7,7 +7,13 @@
    hooks) was repaired in /repo and the model follows the repaired code.
    The only hypothesis is wf_children: names are non-empty single path elements and
    the entries of one directory have distinct names — what a file system guarantees.
-   It is needed for "duplicate-free" only; C20_discover_iff and C20_sorted need nothing. *)
+   It is needed for "duplicate-free" only; C20_discover_iff and C20_sorted need nothing.
+
+   Naming ("each hook is named by its path relative to the hooks directory") and the
+   by-name index: C20_rel_is_remainder, C20_name_is_relative_path,
+   C20_name_determines_file, C20_index_holds_every_hook - for every tree, in particular
+   trees in which the hooks directory's own path (its last element, several trailing
+   elements, the whole absolute path) occurs again below it.  No hypothesis. *)
 From Coq Require Import Sorted.
 From Verif Require Import Common C20_Model C20_Spec C20_Corr C20_Proofs.
 Local Open Scope N_scope.
@@ -65,6 +71,71 @@ Theorem C20_model_satisfies_P : forall i,
   wf_children (i_children i) = true -> P i (model_of i) = true.
 Proof. exact P_model. Qed.
 Print Assumptions C20_model_satisfies_P.
+
+(* "each hook is named by its path relative to the hooks directory".
+   The name is computed by filepath.Rel, modelled on the ELEMENTS of the two path strings
+   (C20_Model.rel: split both at the separators, drop the common leading elements, join the
+   rest).  Whatever stands below the hooks directory - directories that repeat its last
+   element, several trailing elements or its whole absolute path, any number of times -
+   the name is exactly the remainder: *)
+Theorem C20_rel_is_remainder : forall wd r, rel wd (wd ++ slash :: r) = r.
+Proof. exact rel_join. Qed.
+Print Assumptions C20_rel_is_remainder.
+
+(* ... so for every tree the name of a discovered file is its path relative to the hooks
+   directory (the file is the hooks directory joined with the name, and the name is the path
+   of a file of the tree that meets the conditions of the statement) *)
+Theorem C20_name_is_relative_path : forall parent root cs p,
+  In p (get_executable_paths parent root cs) ->
+  p = working_dir parent root ++ slash :: rel (working_dir parent root) p
+  /\ exists e, In e (all_files cs) /\ entry_is_hook e = true /\ rel (working_dir parent root) p = entry_path e.
+Proof. exact name_is_relative_path. Qed.
+Print Assumptions C20_name_is_relative_path.
+
+(* ... and the name determines the file: no two discovered files share a name, for every
+   tree whatsoever (no hypothesis on the tree, on the hooks directory or on its parent) *)
+Theorem C20_name_determines_file : forall parent root cs p q,
+  In p (get_executable_paths parent root cs) -> In q (get_executable_paths parent root cs) ->
+  rel (working_dir parent root) p = rel (working_dir parent root) q -> p = q.
+Proof. exact name_determines_file. Qed.
+Print Assumptions C20_name_determines_file.
+
+(* the by-name index (hm.hooksByName, a Go map: a later hook of the same name would replace
+   an earlier one): a look-up leads to the file at that relative path and to no other; every
+   loaded hook is found under its name; when Init succeeds every discovered file is found
+   under its relative path - the index holds every discovered hook *)
+Theorem C20_index_holds_every_hook : forall parent root cs beh,
+  (forall n p, index_get (hooks_by_name parent root cs beh) n = Some p -> p = working_dir parent root ++ slash :: n)
+  /\ (forall n, In n (names (init parent root cs beh)) ->
+        index_get (hooks_by_name parent root cs beh) n = Some (working_dir parent root ++ slash :: n))
+  /\ (result (init parent root cs beh) = InitOk ->
+        forall p, In p (get_executable_paths parent root cs) ->
+        index_get (hooks_by_name parent root cs beh) (rel (working_dir parent root) p) = Some p).
+Proof. exact index_holds_every_hook. Qed.
+Print Assumptions C20_index_holds_every_hook.
+
+(* non-vacuity of the naming theorems: the stock layout HOOKS_DIR=/hooks with a nested
+   directory also called hooks, next to a file whose name is what is left when the text
+   "/hooks/" is cut out of the nested path a second time:
+       /hooks/001-mod/hooks/start.sh   ->  001-mod/hooks/start.sh
+       /hooks/001-modstart.sh          ->  001-modstart.sh
+   two hooks, two names, both in the index *)
+Definition b_hooks : bytes := [104; 111; 111; 107; 115].                                     (* hooks *)
+Definition b_mod : bytes := [48; 48; 49; 45; 109; 111; 100].                                 (* 001-mod *)
+Definition b_start : bytes := [115; 116; 97; 114; 116; 46; 115; 104].                        (* start.sh *)
+Definition ex_nested : list tree :=
+  [Dir b_mod [Dir b_hooks [File b_start 493]]; File (b_mod ++ b_start) 493].
+Example C20_nested_hooks_dir :
+  wf_children ex_nested = true
+  /\ get_executable_paths [] b_hooks ex_nested
+     = [47 :: b_hooks ++ 47 :: b_mod ++ 47 :: b_hooks ++ 47 :: b_start; 47 :: b_hooks ++ 47 :: b_mod ++ b_start]
+  /\ discover [] b_hooks ex_nested = [b_mod ++ 47 :: b_hooks ++ 47 :: b_start; b_mod ++ b_start]
+  /\ result (init [] b_hooks ex_nested (fun _ => BOk)) = InitOk
+  /\ index_get (hooks_by_name [] b_hooks ex_nested (fun _ => BOk)) (b_mod ++ b_start)
+     = Some (47 :: b_hooks ++ 47 :: b_mod ++ b_start)
+  /\ index_get (hooks_by_name [] b_hooks ex_nested (fun _ => BOk)) (b_mod ++ 47 :: b_hooks ++ 47 :: b_start)
+     = Some (47 :: b_hooks ++ 47 :: b_mod ++ 47 :: b_hooks ++ 47 :: b_start).
+Proof. repeat split; vm_compute; reflexivity. Qed.
 
 (* non-vacuity: a non-trivial tree meets wf_children, has hooks and non-hooks, and a
    scenario meets the hypotheses of C20_first_failure_named *)
